@@ -1,28 +1,8 @@
 (* Proofs about the UTF-8 model (c13/Utf8.v). *)
 From Coq Require Import List NArith ZArith Bool Lia Arith.
-From Coq Require Import ZifyN ZifyNat ZifyBool.
-From Verif Require Import c13.Utf8.
+From Verif Require Import c13.Tac c13.Utf8.
 Import ListNotations.
 Open Scope N_scope.
-
-Ltac Zify.zify_post_hook ::= Z.to_euclidean_division_equations.
-
-Ltac prop_bools :=
-  repeat match goal with
-  | H : _ && _ = true |- _ => apply andb_true_iff in H; destruct H
-  | H : _ || _ = false |- _ => apply orb_false_iff in H; destruct H
-  | H : negb _ = true |- _ => apply negb_true_iff in H
-  | H : negb _ = false |- _ => apply negb_false_iff in H
-  end.
-
-Ltac split_ifs :=
-  repeat match goal with
-  | |- context [if ?b then _ else _] =>
-      lazymatch b with
-      | context [if _ then _ else _] => fail
-      | _ => let H := fresh "C" in destruct b eqn:H
-      end
-  end.
 
 (* ---------------------------------------------------------------------------------------- *)
 (* encode then decode *)
@@ -250,13 +230,19 @@ Proof.
   rewrite !firstn_all2 by lia. reflexivity.
 Qed.
 
+Lemma skipn_add : forall (A : Type) (a b : nat) (l : list A), skipn (a + b) l = skipn b (skipn a l).
+Proof.
+  induction a as [|a IH]; intros b l; [reflexivity|].
+  destruct l as [|x l]; [cbn; rewrite skipn_nil; reflexivity|]. cbn [Nat.add skipn]. apply IH.
+Qed.
+
 (* runes of a suffix that starts on a rune boundary *)
 Lemma runes_skipn_offs : forall k s, runes (skipn (offs s k) s) = skipn k (runes s).
 Proof.
   induction k as [|k IH]; intros s; [reflexivity|].
   destruct s as [|b r]; [reflexivity|].
   rewrite offs_S by discriminate. rewrite (runes_cons (b :: r)) by discriminate.
-  cbn [skipn]. rewrite <- IH. f_equal. rewrite Nat.add_comm. symmetry. apply skipn_skipn.
+  cbn [skipn]. rewrite <- IH. f_equal. apply skipn_add.
 Qed.
 
 (* truncating after the decoded sequence does not change what is decoded *)
@@ -299,10 +285,10 @@ Proof.
 Qed.
 
 Lemma explode_firstn_offs : forall k s, explode (firstn (offs s k) s) = firstn k (explode s).
-Proof. intros. unfold explode. rewrite runes_firstn_offs. apply firstn_map. Qed.
+Proof. intros. unfold explode. rewrite runes_firstn_offs. symmetry. apply firstn_map. Qed.
 
 Lemma explode_skipn_offs : forall k s, explode (skipn (offs s k) s) = skipn k (explode s).
-Proof. intros. unfold explode. rewrite runes_skipn_offs. apply skipn_map. Qed.
+Proof. intros. unfold explode. rewrite runes_skipn_offs. symmetry. apply skipn_map. Qed.
 
 Lemma count_firstn_offs : forall k s, (k <= length (runes s))%nat -> count_runes (firstn (offs s k) s) = k.
 Proof.
@@ -311,13 +297,24 @@ Proof.
 Qed.
 
 (* offsets inside a suffix *)
+Lemma list_sum_cons : forall w l, list_sum (w :: l) = (w + list_sum l)%nat.
+Proof. reflexivity. Qed.
+
+Lemma list_sum_skipn_firstn : forall (l : list nat) j k,
+  (list_sum (firstn k (skipn j l)) + list_sum (firstn j l) = list_sum (firstn (j + k) l))%nat.
+Proof.
+  intros l j. revert l. induction j as [|j IH]; intros l k.
+  { cbn [skipn firstn Nat.add]. change (list_sum []) with 0%nat. lia. }
+  destruct l as [|w l]; [cbn [skipn]; rewrite !firstn_nil; change (list_sum []) with 0%nat; lia|].
+  cbn [skipn firstn Nat.add]. rewrite !list_sum_cons. specialize (IH l k). lia.
+Qed.
+
 Lemma offs_skipn : forall j k s, (offs (skipn (offs s j) s) k + offs s j = offs s (j + k))%nat.
 Proof.
-  intros j k s. unfold offs at 1 4. unfold widths. rewrite runes_skipn_offs.
-  fold (widths s). rewrite skipn_map. fold (widths s). unfold offs.
-  generalize (widths s). clear s. induction j as [|j IH]; intros l; [cbn; lia|].
-  destruct l as [|w l]; [rewrite !firstn_nil, skipn_nil, firstn_nil; cbn; lia|].
-  cbn [skipn firstn list_sum Nat.add]. specialize (IH l). lia.
+  intros j k s.
+  assert (E : widths (skipn (offs s j) s) = skipn j (widths s)).
+  { unfold widths. rewrite runes_skipn_offs. symmetry. apply skipn_map. }
+  unfold offs at 1. rewrite E. unfold offs. apply list_sum_skipn_firstn.
 Qed.
 
 (* the byte range between two boundaries holds exactly the runes in between *)
@@ -335,5 +332,5 @@ Qed.
 Lemma explode_sub_offs : forall s j k, (j <= k)%nat ->
   explode (sub_bytes s (offs s j) (offs s k)) = firstn (k - j) (skipn j (explode s)).
 Proof.
-  intros. unfold explode. rewrite runes_sub_offs by assumption. rewrite firstn_map, skipn_map. reflexivity.
+  intros. unfold explode. rewrite runes_sub_offs by assumption. rewrite skipn_map, firstn_map. reflexivity.
 Qed.
